@@ -18,15 +18,16 @@ def cases(draw, max_leaves=8, ninst=3):
     d = draw(st.sampled_from(impl.DRAFTS))
     s = draw(GS.root_schemas(d, max_leaves))
     xs = draw(GI.instances_for(s, ninst))
-    return {"draft": d, "schema": s, "instances": xs}
+    return {"draft": d, "schema": s, "instances": xs, "probes": 30}
 
 
 class C01(Prop):
     ID = "C01"
     QUICK = 700
     THOROUGH = 16000
-    RULE = ("case = (draft, reference-free well-meant schema from the interaction-biased grammar, 3 schema-directed "
-            "instances); each (schema, instance) pair is one evaluation: is_valid and bool(iter_errors) are compared "
+    RULE = ("case = (draft, reference-free well-meant schema from the interaction-biased grammar, 3 drawn schema-directed "
+            "instances plus a deterministic schema-derived probe set of <= 36 instances: bounds and their neighbours, "
+            "lengths +-1, key subsets, enum values and near-equal rewrites, per-position item variants); each (schema, instance) pair is one evaluation: is_valid and bool(iter_errors) are compared "
             "with the independent evaluator O-SPEC.  A pair is non-trivial when the schema is accepted by "
             "check_schema, at least one root keyword applies to the instance's JSON type and the schema has >= 2 "
             "keywords or an applicator with a non-empty subschema; distinct = SHA-1 of (draft, schema, instance).")
@@ -46,7 +47,9 @@ class C01(Prop):
 
     def check(self, case):
         res = Result()
-        d, s, xs = case["draft"], case["schema"], case["instances"]
+        d, s, xs = case["draft"], case["schema"], list(case["instances"])
+        if case.get("probes"):
+            xs += GI.probes(s, case["probes"])
         cls = impl.CLS[d]
         res.evals = 0
         if walk.has_ref(d, s):
@@ -111,6 +114,12 @@ class C01(Prop):
         if res.nontrivial:
             res.nt_key = case
         return res
+
+    def focus(self, case, bucket):
+        """Candidate reductions tried before structural shrinking: one instance, no probe set."""
+        xs = list(case["instances"]) + (GI.probes(case["schema"], case["probes"]) if case.get("probes") else [])
+        for x in xs:
+            yield {"draft": case["draft"], "schema": case["schema"], "instances": [x], "probes": 0}
 
     def gate(self, acc, tier):
         miss = []
